@@ -12,34 +12,53 @@ pub fn labels(st: &WalkStats, obs: &mut Obs) {
     }
 }
 
+/// raw mode (libFuzzer seeds are sample objects): [n][n walker-argument bytes][the ELF file]
+pub fn split_raw(case: &[u8]) -> (&[u8], &[u8]) {
+    match case.split_first() {
+        None => (&[], &[]),
+        Some((n, rest)) => {
+            let k = (*n as usize).min(rest.len());
+            (&rest[..k], &rest[k..])
+        }
+    }
+}
+
 fn run(case: &[u8], obs: &mut Obs, count_allocs: bool) -> Result<(), String> {
     let mut c = Choice::new(case);
     let inp = inputs::gen_input(&mut c, &InputOpts::default());
     // the rest of the choice sequence drives the walker's arguments
     let args = c.rest();
+    run_on(&inp.data, args, inp.mode, &inp.note, obs, count_allocs)
+}
+
+fn run_raw(case: &[u8], obs: &mut Obs, count_allocs: bool) -> Result<(), String> {
+    let (args, data) = split_raw(case);
+    run_on(data, args, "raw_file", "", obs, count_allocs)
+}
+
+fn run_on(data: &[u8], args: &[u8], mode: &'static str, note: &str, obs: &mut Obs, count_allocs: bool) -> Result<(), String> {
     let mut wc = Choice::new(args);
     let mut st = WalkStats::new(1500);
-    let data: &[u8] = &inp.data;
     if count_allocs {
         alloc::open();
         let r = guard(|| walk::walk(data, &mut wc, &mut st));
         let a = alloc::close();
-        r.map_err(|p| format!("crate panicked during the walk of a {}-byte {} input: {}", data.len(), inp.mode, p))?;
+        r.map_err(|p| format!("crate panicked during the walk of a {}-byte {} input: {}", data.len(), mode, p))?;
         if a.count != 0 {
-            return Err(format!("{} heap allocation(s) (largest {} bytes, {} bytes in total) during the slice-parser walk of a {}-byte {} input ({}); opened={}", a.count, a.max_request, a.total, data.len(), inp.mode, inp.note, st.flags & walk::F_OPENED != 0));
+            return Err(format!("{} heap allocation(s) (largest {} bytes, {} bytes in total) during the slice-parser walk of a {}-byte {} input ({}); opened={}", a.count, a.max_request, a.total, data.len(), mode, note, st.flags & walk::F_OPENED != 0));
         }
     } else {
-        guard(|| walk::walk(data, &mut wc, &mut st)).map_err(|p| format!("panic during the walk of a {}-byte {} input ({}): {}", data.len(), inp.mode, inp.note, p))?;
+        guard(|| walk::walk(data, &mut wc, &mut st)).map_err(|p| format!("panic during the walk of a {}-byte {} input ({}): {}", data.len(), mode, note, p))?;
     }
     labels(&st, obs);
-    obs.label(inp.mode);
+    obs.label(mode);
     obs.count("api_calls", st.calls);
     obs.count("iterator_items", st.items);
     if st.flags & (walk::F_OPENED | walk::F_DEEP_STANDALONE) != 0 {
         obs.nontrivial();
     }
     obs.key = fnv64(data) ^ fnv64(args).rotate_left(21);
-    obs.describe(|| json!({"mode": inp.mode, "input_len": data.len(), "note": inp.note, "input_prefix_hex": hex(&data[..data.len().min(64)]), "walker_arg_bytes": args.len(), "api_calls": st.calls, "iterator_items": st.items, "reached": walk::FLAG_NAMES.iter().filter(|(f, _)| st.flags & f != 0).map(|(_, n)| *n).collect::<Vec<_>>()}));
+    obs.describe(|| json!({"mode": mode, "input_len": data.len(), "note": note, "input_prefix_hex": hex(&data[..data.len().min(64)]), "walker_arg_bytes": args.len(), "api_calls": st.calls, "iterator_items": st.items, "reached": walk::FLAG_NAMES.iter().filter(|(f, _)| st.flags & f != 0).map(|(_, n)| *n).collect::<Vec<_>>()}));
     Ok(())
 }
 
@@ -48,6 +67,12 @@ pub fn oracle_total(case: &[u8], obs: &mut Obs) -> Result<(), String> {
 }
 pub fn oracle_noalloc(case: &[u8], obs: &mut Obs) -> Result<(), String> {
     run(case, obs, true)
+}
+pub fn oracle_total_raw(case: &[u8], obs: &mut Obs) -> Result<(), String> {
+    run_raw(case, obs, false)
+}
+pub fn oracle_noalloc_raw(case: &[u8], obs: &mut Obs) -> Result<(), String> {
+    run_raw(case, obs, true)
 }
 
 /// ident buffers of every length: plain encoding = the buffer itself
@@ -105,7 +130,7 @@ pub fn property() -> Property {
         level: "exploration",
         rule: "cases are (input bytes, walker arguments): inputs come from three modes - structured rich files (every section kind wired by sh_link/sh_info, segments, random layout) with 0..3 header-field overrides from the boundary table {0,1,..,2^31,2^32-1,2^63,2^64-1,file_len-1,file_len,file_len+1,own value+-1} and byte/word corruption of section bodies; linker-produced sample objects with 0..4 field overrides located by an independent reader, byte flips, word edits, splices, truncations; raw bytes with an optional valid ident/header prefix. The allocation-free walker then calls every public entry point of the no_std core (open under all specs, every ElfBytes accessor on the file's own and on fabricated headers, every lazy table at indices {0,1,len-1,len,len+1,usize::MAX/entsize..,usize::MAX}, string tables, notes, both hash lookups, symbol-version queries, and all stand-alone parsers/constructors on arbitrary sub-slices with offsets up to usize::MAX, alignments 0..2^64-1, counts up to u64::MAX; parse_ident on every buffer length 0..20) with overflow checks and debug assertions on. Oracle: no panic. Non-trivial: the input opened, or a stand-alone parser got past input validation; distinct by (input, args) hash. ident: exhaustive over buffer lengths 0..20 x 6 content variants.",
         assumptions: &["64-bit host (usize = 64 bits)", "aborts (stack overflow, OOM) would kill the checker and surface as exit 2, not as a pass"],
-        subs: vec![Sub::enumerated("ident", oracle_ident, enum_ident, true), Sub::new("total", oracle_total, 3000, 300_000, 10_000_000).shrink(3000)],
-        extra: None,
+        subs: vec![Sub::enumerated("ident", oracle_ident, enum_ident, true), Sub::new("total", oracle_total, 3000, 300_000, 10_000_000).shrink(3000), Sub::new("total_raw", oracle_total_raw, 600, 20_000, 200_000).shrink(3000)],
+        extras: vec![crate::fuzz::c01_campaign],
     }
 }
